@@ -375,4 +375,276 @@ Proof.
   eapply tot1_bind; [apply tot1_get|]. intros st _. apply tot1_optional_error.
 Qed.
 
+(* ---------- layer 2: programs that drive the lexer; the fuel bound ---------- *)
+Definition pnu (st : pstate) : nat := nu (p_lex st).
+
+Lemma pnext_spec st : pinv st ->
+  match pnext st with
+  | Val (Ret ev st') => pinv st' /\ ev_all isb ev /\ (pnu st' <= pnu st)%nat /\ (ev = EvEOF \/ (pnu st' < pnu st)%nat)
+  | Val (Raise e st') => pinv st' /\ err_line_ok e
+  | Pan _ => False
+  | Fuel => False
+  end.
+Proof.
+  intros Hi. pose proof Hi as (I1 & (I2a & I2b) & I3 & I4). unfold pnext.
+  pose proof (next_spec (p_lex st)) as SP. pose proof (lex_inv_lines bs (p_lex st) I1) as LL.
+  destruct (next (p_lex st)) as [[line ev l'|line e]| |]; try exact SP.
+  - destruct LL as [LO LI']. destruct SP as (_ & (c & EC & _) & MEAS & BYTES).
+    destruct (BYTES isb I2a I2b) as [EB DB].
+    assert (FR : Forall isb (l_rest l')) by (rewrite EC in I2a; apply Forall_app in I2a; apply I2a).
+    split; [|split; [exact EB|]].
+    + unfold pinv; cbn [p_lex p_line p_warnings set_line set_lex].
+      split; [exact LI'|]. split; [split; [exact FR|exact DB]|]. split; [exact LO|exact I4].
+    + unfold pnu; cbn [p_lex set_line set_lex].
+      destruct ev; try (split; [lia|right; exact MEAS]).
+      destruct MEAS as [M1 M2]. unfold nu. rewrite M1, M2. cbn [List.length]. split; [lia|left; reflexivity].
+  - split; [exact Hi|exact LL].
+Qed.
+
+Definition tot2 {A} (F : nat) (m : M A) (Q : A -> Prop) : Prop :=
+  forall st, pinv st -> (pnu st < F)%nat ->
+    match m st with
+    | Val (Ret a st') => pinv st' /\ (pnu st' <= pnu st)%nat /\ Q a
+    | Val (Raise e st') => pinv st' /\ err_line_ok e
+    | Pan _ => False
+    | Fuel => False
+    end.
+
+Lemma tot2_of_tot1 {A} F (m : M A) Q : tot1 m Q -> tot2 F m Q.
+Proof.
+  intros H st Hi _. specialize (H st Hi). destruct (m st) as [[a st'|e st']| |]; auto.
+  destruct H as (H1 & H2 & H3). unfold pnu. rewrite H2. auto.
+Qed.
+
+Lemma tot2_zero {A} (m : M A) Q : tot2 0 m Q.
+Proof. intros st _ L. lia. Qed.
+
+Lemma tot2_weaken {A} F F' (m : M A) Q : (F' <= F)%nat -> tot2 F m Q -> tot2 F' m Q.
+Proof. intros L H st Hi Hn. apply H; [exact Hi|lia]. Qed.
+
+Lemma tot2_conseq {A} F (m : M A) (Q Q' : A -> Prop) : tot2 F m Q -> (forall a, Q a -> Q' a) -> tot2 F m Q'.
+Proof.
+  intros H HQ st Hi Hn. specialize (H st Hi Hn). destruct (m st) as [[a st'|e st']| |]; auto.
+  destruct H as (H1 & H2 & H3). auto.
+Qed.
+
+Lemma tot2_bind {A B} F (m : M A) (f : A -> M B) (Q1 : A -> Prop) (Q : B -> Prop) :
+  tot2 F m Q1 -> (forall a, Q1 a -> tot2 F (f a) Q) -> tot2 F (mbind m f) Q.
+Proof.
+  intros Hm Hf st Hi Hn. specialize (Hm st Hi Hn). unfold mbind. destruct (m st) as [[a st1|e st1]| |]; auto.
+  destruct Hm as (I1 & L1 & Q1a). specialize (Hf a Q1a st1 I1 ltac:(lia)).
+  destruct (f a st1) as [[b st2|e st2]| |]; auto. destruct Hf as (I2 & L2 & Qb). split; [exact I2|]. split; [lia|exact Qb].
+Qed.
+
+Lemma tot2_bind1 {A B} F (m : M A) (f : A -> M B) (Q1 : A -> Prop) (Q : B -> Prop) :
+  tot1 m Q1 -> (forall a, Q1 a -> tot2 F (f a) Q) -> tot2 F (mbind m f) Q.
+Proof. intros H. apply tot2_bind. apply tot2_of_tot1. exact H. Qed.
+
+Lemma tot2_pnext_bind {B} F (k : event -> M B) Q :
+  (forall ev, ev_all isb ev -> tot2 (match ev with EvEOF => F | _ => pred F end) (k ev) Q) ->
+  tot2 F (mbind pnext k) Q.
+Proof.
+  intros Hk st Hi Hn. pose proof (pnext_spec st Hi) as SP. unfold mbind.
+  destruct (pnext st) as [[ev st1|e st1]| |]; auto.
+  destruct SP as (I1 & EB & LE & MEAS). specialize (Hk ev EB st1 I1).
+  assert (PRE : (pnu st1 < match ev with EvEOF => F | _ => pred F end)%nat).
+  { destruct MEAS as [->|M]; [lia|]. destruct ev; lia. }
+  specialize (Hk PRE). destruct (k ev st1) as [[b st2|e st2]| |]; auto.
+  destruct Hk as (I2 & L2 & Qb). split; [exact I2|]. split; [lia|exact Qb].
+Qed.
+
+Lemma tot2_guard {B} F (c : bool) k e i (f : unit -> M B) Q :
+  tot2 F (f tt) Q -> tot2 F (mbind (if c then optional_error strict k e i else ret tt) f) Q.
+Proof.
+  intros H. eapply tot2_bind1 with (Q1 := fun _ => True).
+  - destruct c; [apply tot1_optional_error|apply tot1_ret; exact I].
+  - intros [] _. exact H.
+Qed.
+
+Definition modify_ok (f : pstate -> pstate) : Prop :=
+  forall st, p_lex (f st) = p_lex st /\ p_line (f st) = p_line st /\ p_warnings (f st) = p_warnings st.
+
+Definition recT := N -> etype -> list (N * cdata) -> option (list N) -> list N -> list nat -> M etree.
+
+Lemma tot2_pe_loop (rec : recT) G :
+  (forall n ty a c p ps, etype_ok T ty -> tot2 G (rec n ty a c p ps) (fun _ => True)) ->
+  forall lfuel F name ty attrs comment pos content elem_idx snf stored path,
+    (F <= lfuel)%nat -> (F <= S G)%nat -> etype_ok T ty -> (elem_idx = [] \/ path_ok T (snd ty) elem_idx) ->
+    tot2 F (pe_loop strict T tab_el tab_at tab_en check_fn float_parse rec lfuel name ty attrs comment pos
+                    content elem_idx snf stored path) (fun _ => True).
+Proof.
+  intros Hrec. induction lfuel as [|lf IH]; intros F name ty attrs comment pos content elem_idx snf stored path LF LG TY PE.
+  { replace F with O by lia. apply tot2_zero. }
+  destruct F as [|f]; [apply tot2_zero|].
+  assert (LOOP : forall content elem_idx snf stored path, (elem_idx = [] \/ path_ok T (snd ty) elem_idx) ->
+     tot2 f (pe_loop strict T tab_el tab_at tab_en check_fn float_parse rec lf name ty attrs comment pos
+                    content elem_idx snf stored path) (fun _ => True)).
+  { intros. apply IH; auto; lia. }
+  cbn [pe_loop].
+  eapply tot2_bind1; [apply tot1_modify; intros; repeat split|]. intros _ _.
+  apply tot2_pnext_bind. intros ev EB.
+  destruct ev as [sa|elem_text attr_text|elem_text|text|c|]; cbn [pred].
+  - (* unexpected xml header *)
+    eapply tot2_bind1; [apply tot1_optional_error|]. intros _ _. apply LOOP. exact PE.
+  - (* begin element *)
+    destruct EB as [EB1 EB2].
+    destruct (name_of_total tab_el elem_text NEL) as (nm & ->).
+    change (mbind (lift (Val nm)) ?k) with (k nm). cbv beta.
+    destruct nm as [sub_name|]; [|apply tot2_of_tot1, tot1_hard].
+    eapply tot2_bind1; [apply tot1_find_element_in_spec_checked; exact TY|]. intros [sub_ty idx] [ST PI]. cbn [fst snd] in ST, PI.
+    eapply tot2_bind1; [apply tot1_check_element_conflict; [exact PE|exact PI]|]. intros _ _.
+    eapply tot2_bind1 with (Q1 := fun _ => True).
+    { destruct content; [apply tot1_ret; exact I|apply tot1_check_multiplicity; exact PI]. }
+    intros _ _.
+    eapply tot2_bind1; [apply tot1_parse_attribute_text; [exact ST|exact EB2]|]. intros sub_attrs _.
+    eapply tot2_bind; [eapply tot2_weaken; [|apply Hrec; exact ST]; lia|]. intros sub _.
+    destruct (sub_name =? name_short_name T)%N; [|apply LOOP; right; exact PI].
+    destruct (first_string sub); [|apply LOOP; right; exact PI].
+    eapply tot2_bind1; [apply tot1_modify; intros; repeat split|]. intros _ _. apply LOOP; right; exact PI.
+  - (* end element *)
+    destruct (name_of_total tab_el elem_text NEL) as (nm & ->).
+    change (mbind (lift (Val nm)) ?k) with (k nm). cbv beta.
+    destruct nm as [n|]; [|apply tot2_of_tot1, tot1_hard].
+    destruct (n =? name)%N; [|apply tot2_of_tot1, tot1_hard].
+    apply tot2_of_tot1. eapply tot1_bind; [apply tot1_get|]. intros st _.
+    destruct (is_named_in_version_ok T TOK ty (p_version st) TY) as (b & ->).
+    change (mbind (lift (Val b)) ?k) with (k b). cbv beta.
+    apply tot1_guard. apply tot1_ret; exact I.
+  - (* characters *)
+    destruct (chardata_spec_ok T TOK ty TY) as (spec & -> & SP).
+    change (mbind (lift (Val spec)) ?k) with (k spec). cbv beta.
+    destruct spec as [cs|].
+    + eapply tot2_bind1; [apply tot1_parse_character_data; [exact EB|exact SP]|]. intros value _.
+      destruct (is_ref_ok T TOK ty TY) as (isr & ->).
+      change (mbind (lift (Val isr)) ?k) with (k isr). cbv beta.
+      eapply tot2_bind1 with (Q1 := fun _ => True).
+      { destruct value; try (apply tot1_ret; exact I).
+        destruct isr; [apply tot1_modify; intros; repeat split|apply tot1_ret; exact I]. }
+      intros _ _. apply LOOP. exact PE.
+    + eapply tot2_bind1; [apply tot1_optional_error|]. intros _ _. apply LOOP. exact PE.
+  - (* comment *)
+    apply LOOP. exact PE.
+  - (* end of file *)
+    apply tot2_of_tot1, tot1_hard.
+Qed.
+
+Lemma tot2_parse_element fuel lfuel : forall name ty attrs comment path pos, etype_ok T ty ->
+  tot2 (Nat.min fuel lfuel)
+       (parse_element strict T tab_el tab_at tab_en check_fn float_parse fuel lfuel name ty attrs comment path pos)
+       (fun _ => True).
+Proof.
+  induction fuel as [|f IH]; intros name ty attrs comment path pos TY; [apply tot2_zero|].
+  cbn [parse_element].
+  apply (tot2_pe_loop (parse_element strict T tab_el tab_at tab_en check_fn float_parse f lfuel) (Nat.min f lfuel)).
+  - intros. apply IH. assumption.
+  - lia.
+  - lia.
+  - exact TY.
+  - left; reflexivity.
+Qed.
+
+Lemma tot2_skip_comments fuel : forall F stored tok, (F < fuel)%nat -> ev_all isb tok ->
+  tot2 F (skip_comments fuel stored tok) (fun r => ev_all isb (snd r)).
+Proof.
+  induction fuel as [|f IH]; intros F stored tok LF EB; [lia|].
+  cbn [skip_comments].
+  destruct tok; try (apply tot2_of_tot1, tot1_ret; exact EB).
+  apply tot2_pnext_bind. intros ev EB'.
+  assert (STEP : forall ev', ev_all isb ev' -> tot2 (pred F) (skip_comments f (Some (utf8_lossy text)) ev') (fun r => ev_all isb (snd r))).
+  { intros ev' E'. destruct F as [|F']; [apply tot2_zero|]. apply IH; [cbn [pred]; lia|exact E']. }
+  destruct ev; try (apply STEP; exact EB').
+  (* end of file: the next round returns at once *)
+  destruct f as [|f']; [replace F with O by lia; apply tot2_zero|].
+  cbn [skip_comments]. apply tot2_of_tot1, tot1_ret. exact EB'.
+Qed.
+
+Lemma tot2_verify_end_of_input F : tot2 F (verify_end_of_input strict) (fun _ => True).
+Proof.
+  intros st Hi Hn. pose proof (pnext_spec st Hi) as SP. unfold pnext in SP. unfold verify_end_of_input.
+  destruct (next (p_lex st)) as [[line ev l'|line e]| |]; try exact SP.
+  destruct SP as (I1 & _ & LE & _).
+    assert (I1' : pinv (set_lex st l')).
+    { destruct I1 as (A & B & C & D). destruct Hi as (_ & _ & C0 & _). unfold pinv in *.
+      cbn [p_lex p_line p_warnings set_line set_lex] in *. auto. }
+    assert (LE' : (pnu (set_lex st l') <= pnu st)%nat) by exact LE.
+    destruct ev; try (pose proof (tot1_optional_error AdditionalDataError 0 0 (set_lex st l') I1') as OE;
+      destruct (optional_error strict AdditionalDataError 0 0 (set_lex st l')) as [[a st2|e st2]| |]; auto;
+      destruct OE as (O1 & O2 & _); split; [exact O1|]; split; [unfold pnu in *; rewrite O2; exact LE'|exact I]).
+    split; [exact I1'|]. split; [exact LE'|exact I].
+Qed.
+
+Lemma tot2_parse_arxml :
+  tot2 (S (List.length bs)) (parse_arxml strict T tab_el tab_at tab_en check_fn float_parse (List.length bs)) (fun _ => True).
+Proof.
+  unfold parse_arxml. set (n := List.length bs).
+  apply tot2_pnext_bind. intros ev EB.
+  destruct ev; try (apply tot2_of_tot1, tot1_hard). cbn [pred].
+  eapply tot2_bind1; [apply tot1_modify; intros; repeat split|]. intros _ _.
+  apply tot2_pnext_bind. intros tok EBt.
+  assert (SK : forall F, (F <= n)%nat -> tot2 F (mbind (skip_comments (S n) None tok)
+     (fun x => let '(stored_comment, token) := x in
+        match token with
+        | EvBegin elemname attributes_text =>
+            mbind (lift (name_of tab_el elemname)) (fun nm =>
+            mbind (autosar_name T) (fun an =>
+            match nm with
+            | Some n0 =>
+                if (n0 =? an)%N
+                then mbind (root_type T) (fun rt =>
+                     mbind (parse_attribute_text strict T tab_at tab_en check_fn float_parse rt attributes_text) (fun attributes =>
+                     mbind (parse_file_header strict tab_at attributes) (fun _ =>
+                     mbind (parse_element strict T tab_el tab_at tab_en check_fn float_parse (S n) (S n) an rt attributes stored_comment [] []) (fun root =>
+                     mbind (verify_end_of_input strict) (fun _ => ret root)))))
+                else hard InvalidArxmlFileHeader 0 0
+            | None => hard InvalidArxmlFileHeader 0 0
+            end))
+        | _ => hard InvalidArxmlFileHeader 0 0
+        end)) (fun _ => True)).
+  { intros F LF. eapply tot2_bind; [apply tot2_skip_comments; [lia|exact EBt]|]. intros [stored token] ET. cbn [snd] in ET.
+    destruct token; try (apply tot2_of_tot1, tot1_hard). destruct ET as [ET1 ET2].
+    destruct (name_of_total tab_el name NEL) as (nm & ->).
+    change (mbind (lift (Val nm)) ?k) with (k nm). cbv beta.
+    destruct (root_ok T TOK) as (e & rt & EE & ER & RTOK).
+    unfold autosar_name. rewrite EE. change (mbind (mbind (lift (Val e)) ?g) ?k) with (mbind (g e) k). cbv beta.
+    change (mbind (ret (ed_name e)) ?k) with (k (ed_name e)). cbv beta.
+    destruct nm as [n0|]; [|apply tot2_of_tot1, tot1_hard].
+    destruct (n0 =? ed_name e)%N; [|apply tot2_of_tot1, tot1_hard].
+    unfold root_type. rewrite ER. change (mbind (lift (Val rt)) ?k) with (k rt). cbv beta.
+    eapply tot2_bind1; [apply tot1_parse_attribute_text; [exact RTOK|exact ET2]|]. intros attributes _.
+    eapply tot2_bind1; [apply tot1_parse_file_header|]. intros _ _.
+    eapply tot2_bind; [eapply tot2_weaken; [|apply tot2_parse_element; exact RTOK]; lia|]. intros root _.
+    eapply tot2_bind; [apply tot2_verify_end_of_input|]. intros _ _. apply tot2_of_tot1, tot1_ret; exact I. }
+  destruct tok; cbn [pred]; apply SK; try apply Nat.le_pred_l; apply Nat.le_refl.
+Qed.
+
+(* ---------- the whole load ---------- *)
+Hypothesis BOK : bytes_ok bs = true.
+
+Lemma init_pinv v401 an : pinv (init_pstate bs v401 an) /\ (pnu (init_pstate bs v401 an) < S (List.length bs))%nat.
+Proof.
+  unfold pinv, pnu, init_pstate; cbn [p_lex p_line p_warnings].
+  assert (FB : Forall isb bs) by (apply bytes_ok_isb; exact BOK).
+  split; [split; [apply lexer_new_inv|split; [|split; [|constructor]]]|].
+  - split; [|exact I]. destruct (lexer_new_rest bs) as [-> | ->]; [exact FB|apply Forall_skipn, FB].
+  - unfold line_ok. lia.
+  - unfold nu. change (l_deferred (lexer_new bs)) with (@None (list N)).
+    destruct (lexer_new_rest bs) as [-> | ->]; [lia|rewrite skipn_length; lia].
+Qed.
+
+Theorem load_total :
+  match load strict T tab_el tab_at tab_en check_fn float_parse bs with
+  | Val (Ret t st) => Forall err_line_ok (p_warnings st)
+  | Val (Raise e st) => err_line_ok e /\ Forall err_line_ok (p_warnings st)
+  | Pan _ => False
+  | Fuel => False
+  end.
+Proof.
+  unfold load. destruct ver_401 as (v401 & ->). destruct (root_ok T TOK) as (e & rt & -> & _ & _).
+  destruct (init_pinv v401 (ed_name e)) as [Hi Hn].
+  pose proof (tot2_parse_arxml _ Hi Hn) as H.
+  destruct (parse_arxml _ _ _ _ _ _ _ _ _) as [[t st|er st]| |]; try exact H.
+  - destruct H as (H1 & _). apply H1.
+  - destruct H as (H1 & H2). split; [exact H2|apply H1].
+Qed.
+
 End PP.
